@@ -8,6 +8,7 @@ import (
 	"encoding/hex"
 	"flag"
 	"fmt"
+	"sort"
 	"strconv"
 	"strings"
 	"testing"
@@ -18,9 +19,11 @@ import (
 	"github.com/google/gce-tcb-verifier/gcetcbendorsement/parsepath"
 	tmpb "github.com/google/gce-tcb-verifier/gcetcbendorsement/parsepath/testmessage"
 	epb "github.com/google/gce-tcb-verifier/proto/endorsement"
+	"google.golang.org/protobuf/encoding/protowire"
 	"google.golang.org/protobuf/proto"
 	"google.golang.org/protobuf/reflect/protopath"
 	"google.golang.org/protobuf/reflect/protoreflect"
+	"google.golang.org/protobuf/types/dynamicpb"
 	fmpb "google.golang.org/protobuf/types/known/fieldmaskpb"
 	"pgregory.net/rapid"
 
@@ -49,30 +52,39 @@ type refStep struct {
 	index int                          // sList
 	key   protoreflect.MapKey          // sMap
 	text  string
+	// exotic: the literal uses a rendering that neither the grammar comments in scan.go nor the
+	// repository's tests pin (upper-case 0X prefix); rejecting it is not held against the parser.
+	exotic bool
 }
 
 // refWalk returns the value addressed by steps, or ok=false when an element is absent.
-func refWalk(m proto.Message, steps []refStep) (protoreflect.Value, bool) {
+// throughUnset says that the walk read through (or ended at) a singular message field that is not
+// set: protoreflect's Get yields an empty read-only message there, but "the addressed element is
+// absent" is a defensible reading too, so an evaluation error is not held against PathValues.
+func refWalk(m proto.Message, steps []refStep) (val protoreflect.Value, ok bool, throughUnset bool) {
 	cur := protoreflect.ValueOfMessage(m.ProtoReflect())
 	for _, s := range steps {
 		switch s.kind {
 		case sField:
+			if s.fd.Message() != nil && !s.fd.IsList() && !s.fd.IsMap() && !cur.Message().Has(s.fd) {
+				throughUnset = true
+			}
 			cur = cur.Message().Get(s.fd)
 		case sList:
 			l := cur.List()
 			if s.index < 0 || s.index >= l.Len() {
-				return protoreflect.Value{}, false
+				return protoreflect.Value{}, false, throughUnset
 			}
 			cur = l.Get(s.index)
 		case sMap:
 			v := cur.Map().Get(s.key)
 			if !v.IsValid() {
-				return protoreflect.Value{}, false
+				return protoreflect.Value{}, false, throughUnset
 			}
 			cur = v
 		}
 	}
-	return cur, true
+	return cur, true, throughUnset
 }
 
 // refWalkPath walks an already parsed protopath.Path on m, independently of the text.
@@ -268,7 +280,7 @@ func genMessage(t *rapid.T, md protoreflect.MessageDescriptor, depth int) protor
 	fields := md.Fields()
 	for i := 0; i < fields.Len(); i++ {
 		fd := fields.Get(i)
-		if !rapid.Bool().Draw(t, "set_"+string(fd.Name())) && depth > 0 {
+		if !rapid.Bool().Draw(t, "set_"+string(fd.Name())) && (depth > 0 || rapid.IntRange(0, 1).Draw(t, "rootunset") == 0) {
 			continue
 		}
 		switch {
@@ -339,8 +351,13 @@ func newMessage(md protoreflect.MessageDescriptor) protoreflect.Message {
 	if md.FullName() == "google.protobuf.Timestamp" {
 		return g.NewField(g.Descriptor().Fields().ByName("timestamp")).Message()
 	}
-	panic("harness: unknown message type " + string(md.FullName()))
+	// descriptors built at run time (props/c19 dynamic key-kind message)
+	return dynamicpb.NewMessage(md)
 }
+
+// list indices of descriptor-directed paths: mostly small (lists have <= 3 drawn elements, plant
+// extends them), some at and beyond 8 so that octal/hex/decimal renderings differ in value.
+var listIdxPool = []int{0, 0, 1, 1, 2, 2, 3, 4, 7, 8, 9, 10, 15, 16}
 
 var int32Pool = []int64{0, 1, -1, 7, 8, 100, -2147483648, 2147483647}
 var int64Pool = []int64{0, 1, -1, 9, 4096, -9223372036854775808, 9223372036854775807}
@@ -351,13 +368,13 @@ func genKey(t *rapid.T, k protoreflect.Kind) protoreflect.MapKey {
 	switch k {
 	case protoreflect.BoolKind:
 		return protoreflect.ValueOfBool(rapid.Bool().Draw(t, "kb")).MapKey()
-	case protoreflect.Int32Kind:
+	case protoreflect.Int32Kind, protoreflect.Sint32Kind, protoreflect.Sfixed32Kind:
 		return protoreflect.ValueOfInt32(int32(rapid.SampledFrom(int32Pool).Draw(t, "k32"))).MapKey()
-	case protoreflect.Int64Kind:
+	case protoreflect.Int64Kind, protoreflect.Sint64Kind, protoreflect.Sfixed64Kind:
 		return protoreflect.ValueOfInt64(rapid.SampledFrom(int64Pool).Draw(t, "k64")).MapKey()
-	case protoreflect.Uint32Kind:
+	case protoreflect.Uint32Kind, protoreflect.Fixed32Kind:
 		return protoreflect.ValueOfUint32(uint32(rapid.SampledFrom(uint32Pool).Draw(t, "ku32"))).MapKey()
-	case protoreflect.Uint64Kind:
+	case protoreflect.Uint64Kind, protoreflect.Fixed64Kind:
 		return protoreflect.ValueOfUint64(rapid.SampledFrom(uint64Pool).Draw(t, "ku64")).MapKey()
 	case protoreflect.StringKind:
 		return protoreflect.ValueOfString(rapid.SampledFrom(strKeyPool).Draw(t, "ks")).MapKey()
@@ -369,14 +386,21 @@ func genScalar(t *rapid.T, fd protoreflect.FieldDescriptor) protoreflect.Value {
 	switch fd.Kind() {
 	case protoreflect.BoolKind:
 		return protoreflect.ValueOfBool(rapid.Bool().Draw(t, "b"))
-	case protoreflect.Int32Kind:
+	case protoreflect.Int32Kind, protoreflect.Sint32Kind, protoreflect.Sfixed32Kind:
 		return protoreflect.ValueOfInt32(rapid.Int32().Draw(t, "i32"))
-	case protoreflect.Int64Kind:
+	case protoreflect.Int64Kind, protoreflect.Sint64Kind, protoreflect.Sfixed64Kind:
 		return protoreflect.ValueOfInt64(rapid.Int64().Draw(t, "i64"))
-	case protoreflect.Uint32Kind:
+	case protoreflect.Uint32Kind, protoreflect.Fixed32Kind:
 		return protoreflect.ValueOfUint32(rapid.Uint32().Draw(t, "u32"))
-	case protoreflect.Uint64Kind:
+	case protoreflect.Uint64Kind, protoreflect.Fixed64Kind:
 		return protoreflect.ValueOfUint64(rapid.Uint64().Draw(t, "u64"))
+	case protoreflect.FloatKind:
+		return protoreflect.ValueOfFloat32(rapid.SampledFrom([]float32{0, 1, -1.5, 3.25e10, 1e-30}).Draw(t, "f32"))
+	case protoreflect.DoubleKind:
+		return protoreflect.ValueOfFloat64(rapid.SampledFrom([]float64{0, 1, -1.5, 3.25e100, 1e-300}).Draw(t, "f64"))
+	case protoreflect.EnumKind:
+		vs := fd.Enum().Values()
+		return protoreflect.ValueOfEnum(vs.Get(rapid.IntRange(0, vs.Len()-1).Draw(t, "enum")).Number())
 	case protoreflect.StringKind:
 		return protoreflect.ValueOfString(rapid.StringN(0, 8, -1).Draw(t, "s"))
 	case protoreflect.BytesKind:
@@ -451,16 +475,16 @@ func genPath(t *rapid.T, root protoreflect.MessageDescriptor, maxSteps int) (str
 				txt = renderString(t, v)
 			}
 			sb.WriteString("[" + txt + "]")
-			steps = append(steps, refStep{kind: sMap, key: k, text: "[" + txt + "]"})
+			steps = append(steps, refStep{kind: sMap, key: k, text: "[" + txt + "]", exotic: strings.Contains(txt, "0X")})
 			md = fd.MapValue().Message()
 		case fd.IsList():
 			if rapid.IntRange(0, 9).Draw(t, "stopAtList") == 0 {
 				return sb.String(), steps
 			}
-			idx := rapid.IntRange(0, 4).Draw(t, "idx")
+			idx := rapid.SampledFrom(listIdxPool).Draw(t, "idx")
 			txt := renderUint(t, uint64(idx), false)
 			sb.WriteString("[" + txt + "]")
-			steps = append(steps, refStep{kind: sList, index: idx, text: "[" + txt + "]"})
+			steps = append(steps, refStep{kind: sList, index: idx, text: "[" + txt + "]", exotic: strings.Contains(txt, "0X")})
 			md = fd.Message()
 		default:
 			md = fd.Message()
@@ -578,6 +602,77 @@ func safeValues(p protopath.Path, m proto.Message) (v protopath.Values, err erro
 	return
 }
 
+// stripRoot removes a leading root step: it carries no addressing information beyond the type.
+func stripRoot(p protopath.Path) protopath.Path {
+	if len(p) > 0 && p[0].Kind() == protopath.RootStep {
+		return p[1:]
+	}
+	return p
+}
+
+func stepMatches(st protopath.Step, s refStep) bool {
+	switch s.kind {
+	case sField:
+		return st.Kind() == protopath.FieldAccessStep && st.FieldDescriptor().FullName() == s.fd.FullName()
+	case sList:
+		return st.Kind() == protopath.ListIndexStep && st.ListIndex() == s.index
+	case sMap:
+		return st.Kind() == protopath.MapIndexStep && st.MapIndex().Interface() == s.key.Interface()
+	}
+	return false
+}
+
+// lastValue is Values.Index(-1).Value without the panic on a malformed Values.
+func lastValue(v protopath.Values) (protoreflect.Value, bool) {
+	if len(v.Values) == 0 {
+		return protoreflect.Value{}, false
+	}
+	return v.Values[len(v.Values)-1], true
+}
+
+var pinnedKeyKinds = map[protoreflect.Kind]bool{protoreflect.BoolKind: true, protoreflect.Int32Kind: true, protoreflect.Int64Kind: true,
+	protoreflect.Uint32Kind: true, protoreflect.Uint64Kind: true, protoreflect.StringKind: true}
+
+// rejectionTolerated says why a parse failure of a descriptor-valid path is not held against the
+// parser ("parsing either fails with an error or ..."): the statement allows failing, so a rejection
+// is a violation only for the syntax the repository documents (grammar comments in scan.go and
+// parse.go, literals pinned by its own tests) on the message types the property quantifies over.
+func rejectionTolerated(steps []refStep) string {
+	for i, s := range steps {
+		if s.kind == sMap && i > 0 && steps[i-1].kind == sField && steps[i-1].fd.IsMap() {
+			if k := steps[i-1].fd.MapKey().Kind(); !pinnedKeyKinds[k] {
+				return "unsupported-key-kind/" + k.String()
+			}
+		}
+	}
+	for _, s := range steps {
+		if s.exotic {
+			return "exotic-literal-form"
+		}
+	}
+	return ""
+}
+
+func litForm(text string) string {
+	if !strings.HasPrefix(text, "[") {
+		return ""
+	}
+	b := strings.TrimPrefix(strings.TrimPrefix(text, "["), "-")
+	switch {
+	case strings.HasPrefix(b, "0x"):
+		return "lit/hex"
+	case strings.HasPrefix(b, "0X"):
+		return "lit/HEX"
+	case strings.HasPrefix(b, "\"") || strings.HasPrefix(b, "'"):
+		return "lit/string"
+	case strings.HasPrefix(b, "t") || strings.HasPrefix(b, "f"):
+		return "lit/bool"
+	case len(b) > 2 && b[0] == '0':
+		return "lit/octal"
+	}
+	return "lit/decimal"
+}
+
 func checkAgainstSteps(t *rapid.T, name string, md protoreflect.MessageDescriptor, msg proto.Message, text string, steps []refStep) {
 	p, err, pan := safeParse(md, text)
 	if pan != nil {
@@ -585,31 +680,29 @@ func checkAgainstSteps(t *rapid.T, name string, md protoreflect.MessageDescripto
 		return
 	}
 	if err != nil {
+		if why := rejectionTolerated(steps); why != "" {
+			if strings.HasPrefix(why, "unsupported-key-kind/") {
+				ev.Note("ParsePath rejects every index into a map whose key kind is %s (castKey has no case for it): allowed by the statement (parsing fails with an error), counted as inconclusive", strings.TrimPrefix(why, "unsupported-key-kind/"))
+			}
+			ev.Case(name, false, "", "inconclusive/rejected-"+why, nil)
+			return
+		}
 		ev.Violation(t, "C19/valid-path-rejected", "descriptor-valid path %q was rejected: %v", text, err)
 		return
 	}
-	// the parsed path denotes the same steps
-	if len(p) != len(steps)+1 {
-		ev.Violation(t, "C19/parse-wrong-steps", "path %q parsed to %d steps, want %d (%v)", text, len(p)-1, len(steps), p)
-		return
-	}
-	for i, s := range steps {
-		st := p[i+1]
-		ok := false
-		switch s.kind {
-		case sField:
-			ok = st.Kind() == protopath.FieldAccessStep && st.FieldDescriptor().FullName() == s.fd.FullName()
-		case sList:
-			ok = st.Kind() == protopath.ListIndexStep && st.ListIndex() == s.index
-		case sMap:
-			ok = st.Kind() == protopath.MapIndexStep && st.MapIndex().Interface() == s.key.Interface()
+	// the parsed path denotes the same steps (a differing step differs in value on some message);
+	// the shape of the path itself (explicit root step, one step per token) is not demanded.
+	if body := stripRoot(p); len(body) == len(steps) {
+		for i, s := range steps {
+			if !stepMatches(body[i], s) {
+				ev.Violation(t, "C19/parse-wrong-step", "path %q step %d parsed as %v, want %s", text, i, body[i], s.text)
+				return
+			}
 		}
-		if !ok {
-			ev.Violation(t, "C19/parse-wrong-step", "path %q step %d parsed as %v, want %s", text, i, st, s.text)
-			return
-		}
+	} else {
+		ev.Class(name, "inconclusive/step-shape-differs-judged-by-evaluation-only")
 	}
-	want, present := refWalk(msg, steps)
+	want, present, throughUnset := refWalk(msg, steps)
 	vals, verr, pan := safeValues(p, msg)
 	if pan != nil {
 		ev.Violation(t, "C19/values-panic", "PathValues(%q) panicked: %v", text, pan)
@@ -618,6 +711,10 @@ func checkAgainstSteps(t *rapid.T, name string, md protoreflect.MessageDescripto
 	cls := indexThenField(steps)
 	if present {
 		if verr != nil {
+			if throughUnset {
+				ev.Case(name, false, "", "inconclusive/unset-message-reported-absent", nil)
+				return
+			}
 			key := "C19/present-value-error"
 			if cls == "field-after-map" {
 				key = "C19/field-after-map-index"
@@ -625,21 +722,30 @@ func checkAgainstSteps(t *rapid.T, name string, md protoreflect.MessageDescripto
 			ev.Violation(t, key, "path %q on %v: reference walk finds %s but PathValues fails: %v", text, msg, valueString(want), verr)
 			return
 		}
-		got := vals.Index(-1).Value
-		if !valuesEqual(got, want) {
+		got, ok := lastValue(vals)
+		if !ok || !valuesEqual(got, want) {
 			ev.Violation(t, "C19/wrong-value", "path %q: PathValues=%s reference=%s", text, valueString(got), valueString(want))
 			return
 		}
-		if len(vals.Values) != len(p) {
-			ev.Violation(t, "C19/values-length", "path %q: %d values for %d steps", text, len(vals.Values), len(p))
-		}
 	} else if verr == nil {
-		ev.Violation(t, "C19/absent-element-no-error", "path %q addresses an absent element but PathValues returned %s", text, valueString(vals.Index(-1).Value))
+		got, _ := lastValue(vals)
+		ev.Violation(t, "C19/absent-element-no-error", "path %q addresses an absent element but PathValues returned %s", text, valueString(got))
 		return
 	}
 	pres := "present"
 	if !present {
 		pres = "absent"
+	}
+	for _, s := range steps {
+		if f := litForm(s.text); f != "" {
+			ev.Class(name, f)
+		}
+		if s.kind == sList && s.index >= 8 {
+			ev.Class(name, "list-index>=8/"+pres)
+		}
+	}
+	if throughUnset {
+		ev.Class(name, "through-unset-message/"+pres)
 	}
 	ev.Case(name, len(steps) >= 2 && hasIndex(steps), stepShape(steps)+"/"+pres, cls+"/"+pres, func() any {
 		return map[string]any{"path": text, "steps": len(steps), "present": present, "value": valueString(want)}
@@ -647,7 +753,7 @@ func checkAgainstSteps(t *rapid.T, name string, md protoreflect.MessageDescripto
 }
 
 func testDescriptorPaths(t *testing.T, name string, md protoreflect.MessageDescriptor, n int) {
-	ev.Rule(name, "descriptor-directed random walk over "+string(md.FullName())+" (fields, list indices in dec/hex/octal, map keys of the declared kind incl. all string escape forms, optional explicit root) x protoreflect-generated message of depth<=3; oracle: ParsePath accepts, parsed steps equal generated steps, PathValues final value == independent protoreflect walk or both absent; non-trivial = >=2 steps incl. a list/map index; distinct = (field-number/index shape, present|absent)")
+	ev.Rule(name, "descriptor-directed random walk over "+string(md.FullName())+" (fields, list indices 0..4 and 7..16 in dec/hex/0X/octal, map keys of the declared kind incl. all string escape forms, optional explicit root) x protoreflect-generated message of depth<=3 whose fields - root level included - may be unset; oracle: ParsePath accepts (a rejection is tolerated and counted inconclusive only for the upper-case 0X prefix and for map key kinds outside bool/int32/int64/uint32/uint64/string, which nothing in the repository documents), the parsed steps after the root denote the generated steps (a path of another shape is judged by evaluation only), PathValues' final value == independent protoreflect walk or both absent (an error for a walk through an unset singular message is tolerated: 'absent' is a defensible reading); non-trivial = >=2 steps incl. a list/map index; distinct = (field-number/index shape, present|absent)")
 	checks(n)
 	rapid.Check(t, func(t *rapid.T) {
 		rm := genMessage(t, md, 0)
@@ -667,19 +773,75 @@ func TestPathsGolden(t *testing.T) {
 	testDescriptorPaths(t, "paths/golden", (&epb.VMGoldenMeasurement{}).ProtoReflect().Descriptor(), ev.Scale(1500, 15000))
 }
 
+// rootTypes are the root descriptors the string-level checks parse against: the two message types
+// of the quantifier, their nested message types (ParsePath takes any descriptor), and the run-time
+// built message with the remaining key and scalar kinds.
+func rootTypes() []protoreflect.MessageDescriptor {
+	return []protoreflect.MessageDescriptor{
+		(&tmpb.Test{}).ProtoReflect().Descriptor(),
+		(&epb.VMGoldenMeasurement{}).ProtoReflect().Descriptor(),
+		(&tmpb.Test_Nested{}).ProtoReflect().Descriptor(),
+		(&epb.VMSevSnp{}).ProtoReflect().Descriptor(),
+		(&epb.VMTdx{}).ProtoReflect().Descriptor(),
+		dynDescriptor(),
+	}
+}
+
+var baseAlphabet = []string{".", "[", "]", "(", ")", "\"", "'", "\\", "0", "1", "-1", "0x", "0x1f", "017", "010", "08", "true", "false", "key", "value",
+	"\"k\"", "'k'", "\\x", "\\u12", "\\U0011FFFF", "\\777", "\x00", "\n", "\xff", "é", "99999999999999999999", "-9223372036854775808", "4294967296", "2147483648", " "}
+
+// alphabetFor adds the field names of every message type reachable from md and the fragments of
+// its full name to the base alphabet.
+func alphabetFor(md protoreflect.MessageDescriptor) (alphabet, names []string) {
+	seen := map[protoreflect.FullName]bool{}
+	have := map[string]bool{}
+	var visit func(protoreflect.MessageDescriptor)
+	visit = func(m protoreflect.MessageDescriptor) {
+		if m == nil || seen[m.FullName()] {
+			return
+		}
+		seen[m.FullName()] = true
+		for i := 0; i < m.Fields().Len(); i++ {
+			fd := m.Fields().Get(i)
+			if !have[fd.TextName()] {
+				have[fd.TextName()] = true
+				names = append(names, fd.TextName())
+			}
+			if fd.IsMap() {
+				visit(fd.MapValue().Message())
+			} else {
+				visit(fd.Message())
+			}
+		}
+	}
+	visit(md)
+	alphabet = append(append([]string{}, baseAlphabet...), names...)
+	alphabet = append(alphabet, strings.Split(string(md.FullName()), ".")...)
+	return alphabet, names
+}
+
+var contLiterals = []string{"0", "1", "010", "0x10", "-1", "true", "\"k\"", "''", "4294967296"}
+
 // Arbitrary and mutated strings: never panic; whenever parsing succeeds the parsed path evaluates
-// exactly like an independent walk of that path.
+// exactly like an independent walk, and denotes what the independent reading of the TEXT denotes.
 func TestArbitraryStrings(t *testing.T) {
 	const name = "strings/arbitrary"
-	ev.Rule(name, "strings from (a) token-level mutation of valid paths (drop/duplicate/swap a token, stray dots/brackets/quotes, wrong-kind keys, negative/huge/odd-base indices), (b) an alphabet of path metacharacters, (c) arbitrary bytes; oracle: no panic in ParsePath/PathValues; if ParsePath accepts, PathValues == independent walk of the parsed protopath (value or absence); non-trivial = parse succeeded with >=2 steps or failed after >=3 tokens; distinct = the string")
-	md := (&tmpb.Test{}).ProtoReflect().Descriptor()
-	checks(ev.Scale(5000, 60000))
-	alphabet := []string{".", "[", "]", "(", ")", "\"", "'", "\\", "0", "1", "-1", "0x", "0x1f", "017", "08", "true", "false", "nested", "repeats", "int32repeats",
-		"strkeymap", "boolkeymap", "int32keymap", "int64keymap", "uint32keymap", "uint64keymap", "intfield", "stringfield", "bytesfield", "key", "value",
-		"testprotopath", "Test", "\"k\"", "'k'", "\\x", "\\u12", "\\U0011FFFF", "\\777", "\x00", "\n", "\xff", "é", "99999999999999999999", "-9223372036854775808", "4294967296", " "}
+	ev.Rule(name, "root type drawn from {Test, VMGoldenMeasurement, Test.Nested, VMSevSnp, VMTdx, run-time built message with all key kinds}; strings from (0) token-level mutation of valid paths (drop/duplicate/swap a token, stray dots/brackets/quotes, wrong-kind keys, negative/huge/odd-base indices, dropped index group, appended continuation '.field' / '[literal]' after a complete path incl. after scalar list/map elements), (1) an alphabet of path metacharacters, literals and the type's field names, (2) arbitrary bytes; oracle: no panic in ParsePath/PathValues; if ParsePath accepts: the path type-checks or evaluates to an error, PathValues == independent walk of the parsed path (value or absence), and, when the harness's own reading of the text (c19_ref_test.go) gives it a meaning, the parsed steps are those steps; a literal that denotes nothing that can exist must evaluate to absence; non-trivial = parse succeeded with >=2 steps or failed after >=3 tokens; distinct = the string")
+	roots := rootTypes()
+	type rootInfo struct {
+		alphabet, names []string
+	}
+	infos := make([]rootInfo, len(roots))
+	for i, md := range roots {
+		infos[i].alphabet, infos[i].names = alphabetFor(md)
+	}
+	checks(ev.Scale(6000, 72000))
 	rapid.Check(t, func(t *rapid.T) {
+		ri := rapid.SampledFrom([]int{0, 0, 0, 1, 1, 2, 3, 4, 5, 5}).Draw(t, "root")
+		md, alphabet, names := roots[ri], infos[ri].alphabet, infos[ri].names
 		msg := genMessage(t, md, 0).Interface()
 		var s string
+		continuation := false
 		mode := rapid.IntRange(0, 2).Draw(t, "mode")
 		switch mode {
 		case 0:
@@ -687,7 +849,19 @@ func TestArbitraryStrings(t *testing.T) {
 			toks := tokenize(valid)
 			nm := rapid.IntRange(1, 3).Draw(t, "nmut")
 			for i := 0; i < nm; i++ {
-				switch rapid.IntRange(0, 6).Draw(t, "mut") {
+				switch rapid.IntRange(0, 8).Draw(t, "mut") {
+				case 7, 8:
+					// continue a complete path: a field access or an index on whatever it ended at
+					// (message, scalar, list or map element)
+					continuation = true
+					switch rapid.IntRange(0, 2).Draw(t, "cont") {
+					case 0:
+						toks = append(toks, ".", rapid.SampledFrom(names).Draw(t, "cname"))
+					case 1:
+						toks = append(toks, "[", rapid.SampledFrom(contLiterals).Draw(t, "clit"), "]")
+					default:
+						toks = append(toks, "[", rapid.SampledFrom(contLiterals).Draw(t, "clit"), "]", ".", rapid.SampledFrom(names).Draw(t, "cname"))
+					}
 				case 5, 6:
 					// drop a whole index group "[" literal "]": a field access straight on a list or map
 					var opens []int
@@ -734,47 +908,119 @@ func TestArbitraryStrings(t *testing.T) {
 		}
 		p, err, pan := safeParse(md, s)
 		if pan != nil {
-			ev.Violation(t, "C19/parse-panic", "ParsePath(%q) panicked: %v", s, pan)
+			ev.Violation(t, "C19/parse-panic", "ParsePath(%s, %q) panicked: %v", md.FullName(), s, pan)
 			return
 		}
-		class := fmt.Sprintf("mode%d/reject", mode)
+		rootName := string(md.Name())
+		class := fmt.Sprintf("%s/mode%d/reject", rootName, mode)
 		nontrivial := false
 		if err == nil {
-			class = fmt.Sprintf("mode%d/accept", mode)
+			class = fmt.Sprintf("%s/mode%d/accept", rootName, mode)
 			nontrivial = len(p) >= 3
-			want, present, wellTyped := refWalkPath(msg, p)
-			if !wellTyped {
-				ev.Violation(t, "C19/parse-ill-typed-path", "ParsePath(%q) produced a path that does not type-check against the root descriptor: %v", s, p)
-				return
-			}
-			vals, verr, pan := safeValues(p, msg)
-			if pan != nil {
-				ev.Violation(t, "C19/values-panic", "PathValues(%q) panicked: %v", s, pan)
-				return
-			}
-			if present && verr != nil {
-				key := "C19/present-value-error"
-				if fieldAfterMap(p) {
-					key = "C19/field-after-map-index"
-				}
-				ev.Violation(t, key, "path %q: reference walk finds %s but PathValues fails: %v", s, valueString(want), verr)
-				return
-			}
-			if present && !valuesEqual(vals.Index(-1).Value, want) {
-				ev.Violation(t, "C19/wrong-value", "path %q: PathValues=%s reference=%s", s, valueString(vals.Index(-1).Value), valueString(want))
-				return
-			}
-			if !present && verr == nil {
-				ev.Violation(t, "C19/absent-element-no-error", "path %q addresses an absent element but PathValues succeeded", s)
+			if !judgeAccepted(t, name, md, msg, s, p) {
 				return
 			}
 		} else {
 			nontrivial = len(tokenize(s)) >= 3
+			if rs, st := refParse(md, s); st == refOK && len(rs) > 0 {
+				// allowed by the statement; counted so that a parser that refuses (nearly) everything shows
+				ev.Class(name, "rejected-although-reference-reads-a-path")
+			}
 		}
-		ev.Case(name, nontrivial, s, class, func() any {
-			return map[string]any{"string": strconv.QuoteToASCII(s), "accepted": err == nil}
+		if continuation {
+			ev.Class(name, map[bool]string{true: "continuation/accept", false: "continuation/reject"}[err == nil])
+		}
+		ev.Case(name, nontrivial, string(md.FullName())+"\x00"+s, class, func() any {
+			return map[string]any{"root": md.FullName(), "string": strconv.QuoteToASCII(s), "accepted": err == nil}
 		})
 	})
+}
+
+// judgeAccepted applies the oracle for a string that ParsePath accepted: path p must be sound for
+// msg and must denote what the text denotes. It returns false after reporting a violation.
+func judgeAccepted(t *rapid.T, name string, md protoreflect.MessageDescriptor, msg proto.Message, s string, p protopath.Path) bool {
+	want, present, wellTyped := refWalkPath(msg, p)
+	vals, verr, pan := safeValues(p, msg)
+	if pan != nil {
+		key := "C19/values-panic"
+		if !wellTyped {
+			key = "C19/parse-ill-typed-path"
+		}
+		ev.Violation(t, key, "ParsePath(%s, %q) = %v; PathValues panicked: %v", md.FullName(), s, p, pan)
+		return false
+	}
+	if !wellTyped {
+		// A path that does not type-check against the root descriptor has no value by walking the
+		// message; evaluating it to an error is sound, returning a value is not.
+		if verr == nil {
+			ev.Violation(t, "C19/parse-ill-typed-path", "ParsePath(%s, %q) produced a path that does not type-check against the root descriptor and PathValues returned a value for it: %v", md.FullName(), s, p)
+			return false
+		}
+		ev.Class(name, "inconclusive/ill-typed-path-evaluates-to-error")
+		return true
+	}
+	if present && verr != nil {
+		key := "C19/present-value-error"
+		if fieldAfterMap(p) {
+			key = "C19/field-after-map-index"
+		}
+		ev.Violation(t, key, "path %q: reference walk finds %s but PathValues fails: %v", s, valueString(want), verr)
+		return false
+	}
+	if present {
+		if got, ok := lastValue(vals); !ok || !valuesEqual(got, want) {
+			ev.Violation(t, "C19/wrong-value", "path %q: PathValues=%s reference=%s", s, valueString(got), valueString(want))
+			return false
+		}
+	}
+	if !present && verr == nil {
+		ev.Violation(t, "C19/absent-element-no-error", "path %q addresses an absent element but PathValues succeeded", s)
+		return false
+	}
+	// what the TEXT denotes, read independently of the parser under test
+	rs, st := refParse(md, s)
+	switch st {
+	case refOK:
+		body := stripRoot(p)
+		if len(body) != len(rs) {
+			ev.Class(name, "inconclusive/step-shape-differs-judged-by-evaluation-only")
+			break
+		}
+		for i := range rs {
+			if !stepMatches(body[i], rs[i]) {
+				ev.Violation(t, "C19/parse-wrong-step", "text %q (root %s): step %d parsed as %v, but the text denotes %s", s, md.FullName(), i, body[i], refStepString(rs[i]))
+				return false
+			}
+		}
+		ev.Class(name, "text-meaning-confirmed")
+	case refNoMeaning:
+		// e.g. uint32 key 4294967296, bool key 1, list index -1, "\U00110000": nothing in any message
+		// of the type is addressed, so a value is a value of some OTHER element
+		if verr == nil {
+			got, _ := lastValue(vals)
+			if refHasBadCodePoint(s) {
+				ev.Violation(t, "C19/invalid-codepoint-escape-aliases-key", "text %q (root %s) has a string key with an escape that is not a Unicode scalar value (no string contains it), yet ParsePath gave %v and PathValues returned %s", s, md.FullName(), p, valueString(got))
+				return false
+			}
+			ev.Violation(t, "C19/wrong-kind-key-accepted", "text %q (root %s) contains an index literal outside the domain of the indexed list/map, yet ParsePath gave %v and PathValues returned %s", s, md.FullName(), p, valueString(got))
+			return false
+		}
+		ev.Class(name, "meaningless-literal-accepted-evaluates-to-absence")
+	default:
+		ev.Class(name, "inconclusive/accepted-beyond-reference-grammar")
+	}
+	return true
+}
+
+func refStepString(s refStep) string {
+	switch s.kind {
+	case sField:
+		return "." + s.fd.TextName()
+	case sList:
+		return fmt.Sprintf("[%d]", s.index)
+	default:
+		return fmt.Sprintf("[%T %v]", s.key.Interface(), s.key.Interface())
+	}
 }
 
 func fieldAfterMap(p protopath.Path) bool {
@@ -821,18 +1067,36 @@ func tokenize(s string) []string {
 	return toks
 }
 
-// Wrong-kind keys and out-of-domain indices must be refused at parse time (so that evaluation can
-// never hit protoreflect's type panic).
+// aliasMessage holds, for every list and map of the test message, the elements that a wrongly
+// converted literal would land on (0/1/-1, the extremes, the values that 2^31, 2^32, 2^63 and their
+// neighbours wrap to, the strings that spell numbers and booleans).
+func aliasMessage() *tmpb.Test {
+	leaf := func(i int32) *tmpb.Test { return &tmpb.Test{Int32Repeats: []int32{i}} }
+	return &tmpb.Test{
+		Repeats:      []*tmpb.Test{leaf(1), leaf(2), leaf(3)},
+		Int32Repeats: []int32{11, 12, 13},
+		Strkeymap:    map[string]*tmpb.Test_Nested{"k": {Intfield: 1}, "1": {Intfield: 2}, "0": {Intfield: 3}, "true": {Intfield: 4}, "false": {Intfield: 5}, "-1": {Intfield: 6}, "": {Intfield: 7}},
+		Boolkeymap:   map[bool]*tmpb.Test{true: leaf(21), false: leaf(22)},
+		Int32Keymap:  map[int32]*tmpb.Test{0: leaf(31), 1: leaf(32), -1: leaf(33), -2147483648: leaf(34), 2147483647: leaf(35)},
+		Int64Keymap:  map[int64]*tmpb.Test{0: leaf(41), 1: leaf(42), -1: leaf(43), -9223372036854775808: leaf(44), 9223372036854775807: leaf(45)},
+		Uint32Keymap: map[uint32]*tmpb.Test{0: leaf(51), 1: leaf(52), 4294967295: leaf(53), 2147483648: leaf(54), 2147483647: leaf(55)},
+		Uint64Keymap: map[uint64]*tmpb.Test{0: leaf(61), 1: leaf(62), 18446744073709551615: leaf(63), 9223372036854775808: leaf(64), 9223372036854775807: leaf(65)},
+	}
+}
+
+// Wrong-kind keys and out-of-domain indices denote nothing that can exist in a message: the parser
+// refuses them, or the path it yields evaluates to absence - never to a value, never to a panic.
 func TestWrongKindKeys(t *testing.T) {
 	const name = "paths/wrong-kind"
-	ev.Rule(name, "a map or list field of the test message indexed with a literal of every other kind / out of the key type's range / negative list index; oracle: ParsePath returns an error, never a path, never panics; non-trivial = all; distinct = (field, literal)")
+	ev.Rule(name, "a map or list field of the test message indexed with a literal of every other kind / out of the key type's range / negative list index; oracle: no panic; an in-domain literal of the documented syntax is accepted; an out-of-domain literal is either refused by ParsePath or yields a path that PathValues evaluates to an error on a message holding every element a wrong conversion would land on (0, 1, -1, extremes, wrapped values, number-spelling strings) - returning a value means the text addressed some other element; non-trivial = all; distinct = (field, literal)")
 	md := (&tmpb.Test{}).ProtoReflect().Descriptor()
 	type lit struct {
 		text string
 		kind string // bool,int,str,neg,big32,big64,huge
 	}
 	lits := []lit{{"true", "bool"}, {"false", "bool"}, {"1", "int"}, {"0", "int"}, {"-1", "neg"}, {`"k"`, "str"}, {`'1'`, "str"},
-		{"4294967296", "big32"}, {"2147483648", "bigi32"}, {"-2147483649", "negbig32"}, {"18446744073709551616", "huge"}, {"9223372036854775808", "bigi64"}, {"0x100000000", "big32"}}
+		{"4294967296", "big32"}, {"2147483648", "bigi32"}, {"-2147483649", "negbig32"}, {"18446744073709551616", "huge"}, {"9223372036854775808", "bigi64"}, {"0x100000000", "big32"},
+		{"4294967297", "big32"}, {"18446744073709551617", "huge"}, {"-4294967295", "negbig32"}, {"-18446744073709551615", "neghuge"}}
 	accepts := map[string]map[string]bool{
 		"strkeymap":    {"str": true},
 		"boolkeymap":   {"bool": true},
@@ -843,8 +1107,14 @@ func TestWrongKindKeys(t *testing.T) {
 		"repeats":      {"int": true, "big32": true, "bigi32": true},
 		"int32repeats": {"int": true, "big32": true, "bigi32": true},
 	}
-	n := 0
-	for field, acc := range accepts {
+	fields := make([]string, 0, len(accepts))
+	for field := range accepts {
+		fields = append(fields, field)
+	}
+	sort.Strings(fields)
+	alias := aliasMessage()
+	for _, field := range fields {
+		acc := accepts[field]
 		for _, l := range lits {
 			text := field + "[" + l.text + "]"
 			p, err, pan := safeParse(md, text)
@@ -852,22 +1122,35 @@ func TestWrongKindKeys(t *testing.T) {
 				ev.Violation(t, "C19/parse-panic", "ParsePath(%q) panicked: %v", text, pan)
 				continue
 			}
-			if !acc[l.kind] && err == nil {
-				ev.Violation(t, "C19/wrong-kind-key-accepted", "ParsePath(%q) accepted a %s literal for field %s: %v", text, l.kind, field, p)
-				continue
-			}
 			if acc[l.kind] && err != nil && l.kind != "big32" && l.kind != "bigi32" {
 				ev.Violation(t, "C19/valid-path-rejected", "ParsePath(%q) rejected a %s literal for field %s: %v", text, l.kind, field, err)
 				continue
 			}
+			class := field + "/rejected"
 			if err == nil {
-				// evaluation must not panic either
-				if _, _, pan := safeValues(p, &tmpb.Test{}); pan != nil {
-					ev.Violation(t, "C19/values-panic", "PathValues(%q) panicked: %v", text, pan)
+				class = field + "/accepted-in-domain"
+				for _, m := range []proto.Message{alias, &tmpb.Test{}} {
+					vals, verr, pan := safeValues(p, m)
+					if pan != nil {
+						ev.Violation(t, "C19/values-panic", "PathValues(%q) panicked: %v", text, pan)
+						break
+					}
+					if !acc[l.kind] {
+						class = field + "/out-of-domain-accepted-evaluates-to-absence"
+						if verr == nil {
+							got, _ := lastValue(vals)
+							ev.Violation(t, "C19/wrong-kind-key-accepted", "ParsePath(%q) accepted a %s literal for field %s as %v and PathValues returned %s: the text cannot denote that element", text, l.kind, field, p, valueString(got))
+							break
+						}
+					}
+					if acc[l.kind] && (l.kind == "big32" || l.kind == "bigi32") && (field == "repeats" || field == "int32repeats") && verr == nil {
+						got, _ := lastValue(vals)
+						ev.Violation(t, "C19/absent-element-no-error", "path %q addresses an element far beyond the list's 3 elements but PathValues returned %s (ParsePath gave %v)", text, valueString(got), p)
+						break
+					}
 				}
 			}
-			n++
-			ev.Case(name, true, text, field, func() any { return map[string]any{"path": text, "accepted": err == nil} })
+			ev.Case(name, true, text, class, func() any { return map[string]any{"path": text, "accepted": err == nil} })
 		}
 	}
 	ev.Exhaustive(name)
@@ -883,17 +1166,40 @@ type bufWriter struct {
 
 func (w *bufWriter) IsTerminal() bool { return w.term }
 
+// stripSpace removes ASCII white space: text renderings may be wrapped or newline-terminated and
+// are still exactly re-decodable by external tools (base64 -d, xxd -r -p).
+func stripSpace(b []byte) string {
+	return strings.Map(func(r rune) rune {
+		if r == ' ' || r == '\n' || r == '\r' || r == '\t' {
+			return -1
+		}
+		return r
+	}, string(b))
+}
+
+func decodeBase64(out []byte) ([]byte, error) {
+	s := stripSpace(out)
+	if d, err := base64.StdEncoding.DecodeString(s); err == nil {
+		return d, nil
+	}
+	return base64.RawStdEncoding.DecodeString(s)
+}
+
+// decodeForm inverts a rendering. The raw form (and "auto" on a non-terminal, which the flag help
+// documents as raw) is the statement's clause: the output IS the bytes. For the text forms the
+// statement's purpose clause applies (external tools can re-verify): the output must decode, by the
+// named encoding, to exactly the bytes; layout (white space, padding, letter case) is not demanded.
 func decodeForm(form gcetcbendorsement.BytesForm, term bool, out []byte) ([]byte, error) {
 	switch form {
 	case gcetcbendorsement.BytesRaw:
 		return out, nil
 	case gcetcbendorsement.BytesHex:
-		return hex.DecodeString(string(out))
+		return hex.DecodeString(stripSpace(out))
 	case gcetcbendorsement.BytesBase64:
-		return base64.StdEncoding.DecodeString(string(out))
+		return decodeBase64(out)
 	case gcetcbendorsement.BytesAuto:
 		if term {
-			return base64.StdEncoding.DecodeString(string(out))
+			return decodeBase64(out)
 		}
 		return out, nil
 	}
@@ -920,30 +1226,168 @@ func (m *memIO) ReadFile(path string) ([]byte, error) {
 	return b, nil
 }
 
+// padVarint appends v as a varint with extra (redundant) continuation bytes: legal on the wire,
+// not what any encoder emits.
+func padVarint(b []byte, v uint64, extra int) []byte {
+	for v >= 0x80 {
+		b = append(b, byte(v)|0x80)
+		v >>= 7
+	}
+	if extra == 0 {
+		return append(b, byte(v))
+	}
+	b = append(b, byte(v)|0x80)
+	for i := 1; i < extra; i++ {
+		b = append(b, 0x80)
+	}
+	return append(b, 0)
+}
+
+// nonCanonical re-encodes the top-level fields of a serialized golden measurement in another order,
+// with over-long tag/length varints, and with a decoy earlier occurrence of the singular bytes
+// field 3 (commit) that the later, real occurrence overrides.
+func nonCanonical(t *rapid.T, canonical []byte) []byte {
+	type fld struct {
+		num protowire.Number
+		typ protowire.Type
+		val []byte // raw value bytes (for BytesType: without the length prefix)
+	}
+	var fs []fld
+	rest := canonical
+	for len(rest) > 0 {
+		num, typ, n := protowire.ConsumeTag(rest)
+		if n < 0 {
+			return canonical
+		}
+		rest = rest[n:]
+		m := protowire.ConsumeFieldValue(num, typ, rest)
+		if m < 0 {
+			return canonical
+		}
+		v := rest[:m]
+		if typ == protowire.BytesType {
+			bv, _ := protowire.ConsumeBytes(rest)
+			v = bv
+		}
+		fs = append(fs, fld{num, typ, v})
+		rest = rest[m:]
+	}
+	perm := rapid.Permutation(fs).Draw(t, "fieldorder")
+	var out []byte
+	hasCommit := false
+	for _, f := range perm {
+		hasCommit = hasCommit || f.num == 3
+	}
+	if hasCommit && rapid.Bool().Draw(t, "decoy") {
+		out = protowire.AppendTag(out, 3, protowire.BytesType)
+		out = protowire.AppendBytes(out, []byte("decoy-commit-overridden-by-the-later-occurrence"))
+		// the real commit must come later: keep its relative position by moving it to the end
+		for i, f := range perm {
+			if f.num == 3 {
+				perm = append(append(perm[:i:i], perm[i+1:]...), f)
+				break
+			}
+		}
+	}
+	for _, f := range perm {
+		out = padVarint(out, protowire.EncodeTag(f.num, f.typ), rapid.IntRange(0, 2).Draw(t, "tagpad"))
+		if f.typ == protowire.BytesType {
+			out = padVarint(out, uint64(len(f.val)), rapid.IntRange(0, 2).Draw(t, "lenpad"))
+		}
+		out = append(out, f.val...)
+	}
+	return out
+}
+
 func TestByteRenderings(t *testing.T) {
 	const name = "render/bytes"
-	ev.Rule(name, "endorsements with drawn payload fields (golden measurement generated from the descriptor) and signature x bytes form {bin,hex,base64,auto x terminal?} x entry {InspectPayload, InspectSignature, InspectMask(bytes path), CLI inspect payload|signature|mask via VerifMakeRoot}; oracle: decoding the output by the named form yields exactly the field bytes (raw form: output == bytes); non-trivial = field non-empty; distinct = (entry, form, field, length bucket)")
+	ev.Rule(name, "endorsements whose payload is {deterministic encoding of a descriptor-generated golden measurement | empty | that encoding plus unknown fields before/after | a non-canonical re-encoding (field order permuted, over-long varints, overridden duplicate of a singular field) | bytes that are no protobuf at all (payload/signature entries)}, bytes fields up to 48 bytes and occasionally 600..5000 (certificate sized), signature up to 300 bytes and occasionally 512..3000, x bytes form {bin,hex,base64,auto x terminal?} x entry {InspectPayload, InspectSignature, InspectMask(bytes path | 2-3 bytes paths), CLI inspect payload|signature|mask via VerifMakeRoot with --path repeated or comma-joined, with and without the --bytesform/--out defaults spelled out}; oracle: raw form (and auto on a non-terminal): output == exactly the field bytes as they are in the endorsement (payload: the serialized bytes, not a re-encoding); text forms: the output decodes by the named encoding to exactly the bytes (white space / padding not demanded); several paths: one rendering per path in order, separated by white space; non-trivial = field non-empty; distinct = (entry, form, terminal, payload kind, field, length bucket)")
 	gmd := (&epb.VMGoldenMeasurement{}).ProtoReflect().Descriptor()
 	forms := []gcetcbendorsement.BytesForm{gcetcbendorsement.BytesRaw, gcetcbendorsement.BytesHex, gcetcbendorsement.BytesBase64, gcetcbendorsement.BytesAuto}
 	formNames := map[gcetcbendorsement.BytesForm]string{gcetcbendorsement.BytesRaw: "bin", gcetcbendorsement.BytesHex: "hex", gcetcbendorsement.BytesBase64: "base64", gcetcbendorsement.BytesAuto: "auto"}
-	checks(ev.Scale(1500, 15000))
+	bigLens := []int{512, 513, 600, 1024, 1025, 3000, 5000}
+	checks(ev.Scale(1800, 18000))
 	rapid.Check(t, func(t *rapid.T) {
 		golden := genMessage(t, gmd, 0).Interface().(*epb.VMGoldenMeasurement)
-		payload, err := proto.Marshal(golden)
-		if err != nil {
-			t.Skip("unmarshalable")
+		if rapid.IntRange(0, 5).Draw(t, "bigfield") == 0 {
+			big := make([]byte, rapid.SampledFrom(bigLens).Draw(t, "biglen"))
+			for i := range big {
+				big[i] = byte(i*7 + len(big))
+			}
+			switch rapid.IntRange(0, 2).Draw(t, "bigwhich") {
+			case 0:
+				golden.Cert = big
+			case 1:
+				golden.CaBundle = big
+			default:
+				if golden.SevSnp == nil {
+					golden.SevSnp = &epb.VMSevSnp{}
+				}
+				golden.SevSnp.CaBundle = big
+			}
 		}
-		if rapid.IntRange(0, 9).Draw(t, "emptyPayload") == 0 {
+		if rapid.IntRange(0, 3).Draw(t, "guidsized") == 0 {
+			// family_id and image_id are GUIDs in real endorsements: exactly 16 bytes
+			if golden.SevSnp == nil {
+				golden.SevSnp = &epb.VMSevSnp{}
+			}
+			golden.SevSnp.FamilyId = rapid.SliceOfN(rapid.Byte(), 16, 16).Draw(t, "family")
+			golden.SevSnp.ImageId = rapid.SliceOfN(rapid.Byte(), 16, 16).Draw(t, "image")
+		}
+		canonical, err := proto.MarshalOptions{Deterministic: true}.Marshal(golden)
+		if err != nil {
+			ev.Class(name, "inconclusive/harness-golden-not-marshalable")
+			return
+		}
+		entry := rapid.SampledFrom([]string{"payload", "signature", "mask", "mask-multi", "cli-payload", "cli-signature", "cli-mask", "cli-mask-multi"}).Draw(t, "entry")
+		isMask := strings.Contains(entry, "mask")
+		payload := canonical
+		pkind := rapid.SampledFrom([]string{"canonical", "canonical", "canonical", "canonical", "empty", "unknown-fields", "unknown-fields", "non-canonical", "non-canonical", "not-a-protobuf"}).Draw(t, "payloadkind")
+		switch pkind {
+		case "empty":
 			payload = nil
 			golden = &epb.VMGoldenMeasurement{}
+		case "unknown-fields":
+			var pre, post []byte
+			pre = protowire.AppendTag(pre, 1000, protowire.VarintType)
+			pre = protowire.AppendVarint(pre, 77)
+			post = protowire.AppendTag(post, 1001, protowire.BytesType)
+			post = protowire.AppendBytes(post, []byte("unknown to this schema"))
+			post = protowire.AppendTag(post, 2000, protowire.Fixed64Type)
+			post = protowire.AppendFixed64(post, 0xfeedface)
+			payload = append(append(append([]byte{}, pre...), canonical...), post...)
+		case "non-canonical":
+			payload = nonCanonical(t, canonical)
+		case "not-a-protobuf":
+			if isMask {
+				pkind = "canonical"
+			} else {
+				payload = append([]byte{0xff, 0xff, 0xff}, rapid.SliceOfN(rapid.Byte(), 0, 64).Draw(t, "garbage")...)
+			}
+		}
+		if pkind == "unknown-fields" || pkind == "non-canonical" {
+			// harness self-check: the variant must still decode to the same measurement
+			back := &epb.VMGoldenMeasurement{}
+			err := proto.Unmarshal(payload, back)
+			back.ProtoReflect().SetUnknown(nil)
+			if err != nil || !proto.Equal(back, golden) {
+				ev.Class(name, "inconclusive/harness-variant-encoding-not-equivalent")
+				payload, pkind = canonical, "canonical"
+			}
 		}
 		sig := rapid.SliceOfN(rapid.Byte(), 0, 300).Draw(t, "sig")
+		if rapid.IntRange(0, 5).Draw(t, "bigsig") == 0 {
+			sig = make([]byte, rapid.SampledFrom(append([]int{16, 16}, bigLens...)).Draw(t, "siglen"))
+			for i := range sig {
+				sig[i] = byte(i*13 + 5)
+			}
+		}
 		e := &epb.VMLaunchEndorsement{SerializedUefiGolden: payload, Signature: sig}
 		form := rapid.SampledFrom(forms).Draw(t, "form")
 		term := rapid.Bool().Draw(t, "terminal")
-		entry := rapid.SampledFrom([]string{"payload", "signature", "mask", "cli-payload", "cli-signature", "cli-mask"}).Draw(t, "entry")
 
-		// bytes paths available in the golden measurement
+		// bytes paths available in the golden measurement, in an order that does not depend on map
+		// iteration
 		type bp struct {
 			path string
 			val  []byte
@@ -951,22 +1395,42 @@ func TestByteRenderings(t *testing.T) {
 		bps := []bp{{"commit", golden.GetCommit()}, {"cert", golden.GetCert()}, {"digest", golden.GetDigest()}, {"ca_bundle", golden.GetCaBundle()},
 			{"sev_snp.family_id", golden.GetSevSnp().GetFamilyId()}, {"sev_snp.image_id", golden.GetSevSnp().GetImageId()},
 			{"sev_snp.svsm_measurement", golden.GetSevSnp().GetSvsmMeasurement()}, {"sev_snp.ca_bundle", golden.GetSevSnp().GetCaBundle()}}
-		for k, v := range golden.GetSevSnp().GetMeasurements() {
-			bps = append(bps, bp{fmt.Sprintf("sev_snp.measurements[%d]", k), v})
-			break
+		var mkeys []uint32
+		for k := range golden.GetSevSnp().GetMeasurements() {
+			mkeys = append(mkeys, k)
+		}
+		sort.Slice(mkeys, func(i, j int) bool { return mkeys[i] < mkeys[j] })
+		for _, k := range mkeys {
+			bps = append(bps, bp{fmt.Sprintf("sev_snp.measurements[%d]", k), golden.GetSevSnp().GetMeasurements()[k]})
 		}
 		for i, m := range golden.GetTdx().GetMeasurements() {
 			bps = append(bps, bp{fmt.Sprintf("tdx.measurements[%d].mrtd", i), m.GetMrtd()})
 		}
-		// keep the choice independent of map order: sort by path
-		for i := range bps {
-			for j := i + 1; j < len(bps); j++ {
-				if bps[j].path < bps[i].path {
-					bps[i], bps[j] = bps[j], bps[i]
+		sort.SliceStable(bps, func(i, j int) bool { return bps[i].path < bps[j].path })
+		sels := []bp{bps[rapid.IntRange(0, len(bps)-1).Draw(t, "bytespath")]}
+		if strings.HasSuffix(entry, "-multi") {
+			// several paths are only separable in a text form; values must be non-empty to be visible
+			var nonEmpty []bp
+			for _, b := range bps {
+				if len(b.val) > 0 {
+					nonEmpty = append(nonEmpty, b)
 				}
 			}
+			textForm := form == gcetcbendorsement.BytesHex || form == gcetcbendorsement.BytesBase64 || (form == gcetcbendorsement.BytesAuto && term)
+			if len(nonEmpty) >= 2 && textForm {
+				n := rapid.IntRange(2, 3).Draw(t, "npaths")
+				sels = sels[:0]
+				for i := 0; i < n; i++ {
+					sels = append(sels, nonEmpty[rapid.IntRange(0, len(nonEmpty)-1).Draw(t, "multipath")])
+				}
+			} else {
+				entry = strings.TrimSuffix(entry, "-multi")
+			}
 		}
-		sel := bps[rapid.IntRange(0, len(bps)-1).Draw(t, "bytespath")]
+		var selPaths []string
+		for _, b := range sels {
+			selPaths = append(selPaths, b.path)
+		}
 
 		var want, out []byte
 		var rerr error
@@ -982,10 +1446,10 @@ func TestByteRenderings(t *testing.T) {
 			want = sig
 			rerr = gcetcbendorsement.InspectSignature(ctx, e)
 			out = w.Bytes()
-		case "mask":
-			want = sel.val
-			field = sel.path
-			rerr = gcetcbendorsement.InspectMask(ctx, e, &fmpb.FieldMask{Paths: []string{sel.path}})
+		case "mask", "mask-multi":
+			want = sels[0].val
+			field = sels[0].path
+			rerr = gcetcbendorsement.InspectMask(ctx, e, &fmpb.FieldMask{Paths: selPaths})
 			out = w.Bytes()
 		default:
 			eb, _ := proto.Marshal(e)
@@ -1003,12 +1467,29 @@ func TestByteRenderings(t *testing.T) {
 			case "cli-signature":
 				want = sig
 				args = append(args, "signature", "e.binarypb")
-			case "cli-mask":
-				want = sel.val
-				field = sel.path
-				args = append(args, "mask", "e.binarypb", "--path", sel.path)
+			case "cli-mask", "cli-mask-multi":
+				want = sels[0].val
+				field = sels[0].path
+				args = append(args, "mask", "e.binarypb")
+				if len(selPaths) > 1 && rapid.Bool().Draw(t, "csv") {
+					args = append(args, "--path", strings.Join(selPaths, ","))
+				} else {
+					for _, sp := range selPaths {
+						args = append(args, "--path", sp)
+					}
+				}
 			}
-			args = append(args, "--bytesform", formNames[form], "--out", outPath)
+			// the documented defaults (--bytesform auto, --out -) spelled out or left to the command
+			if form != gcetcbendorsement.BytesAuto || rapid.Bool().Draw(t, "spellform") {
+				args = append(args, "--bytesform", formNames[form])
+			} else {
+				ev.Class(name, "cli-default-bytesform")
+			}
+			if outPath != "-" || rapid.Bool().Draw(t, "spellout") {
+				args = append(args, "--out", outPath)
+			} else {
+				ev.Class(name, "cli-default-out")
+			}
 			root.SetArgs(args)
 			root.SetOut(&bytes.Buffer{})
 			root.SetErr(&bytes.Buffer{})
@@ -1018,18 +1499,37 @@ func TestByteRenderings(t *testing.T) {
 			}
 		}
 		if rerr != nil {
-			ev.Violation(t, "C19/render-error", "entry %s form %s field %s: unexpected error %v", entry, formNames[form], field, rerr)
+			ev.Violation(t, "C19/render-error", "entry %s form %s payload %s field %s: unexpected error %v", entry, formNames[form], pkind, field, rerr)
 			return
 		}
-		dec, derr := decodeForm(form, term, out)
-		if derr != nil || !bytes.Equal(dec, want) {
-			ev.Violation(t, "C19/render-bytes-differ", "entry %s form %s terminal=%v field %s: output %q decodes to %x (err %v), field bytes are %x", entry, formNames[form], term, field, out, dec, derr, want)
-			return
+		if len(sels) > 1 {
+			parts := strings.Fields(string(out))
+			if len(parts) != len(sels) {
+				ev.Violation(t, "C19/render-bytes-differ", "entry %s form %s terminal=%v paths %v: output %q has %d renderings for %d paths", entry, formNames[form], term, selPaths, out, len(parts), len(sels))
+				return
+			}
+			for i, part := range parts {
+				dec, derr := decodeForm(form, term, []byte(part))
+				if derr != nil || !bytes.Equal(dec, sels[i].val) {
+					ev.Violation(t, "C19/render-bytes-differ", "entry %s form %s terminal=%v paths %v: rendering %d %q decodes to %x (err %v), field bytes are %x", entry, formNames[form], term, selPaths, i, part, dec, derr, sels[i].val)
+					return
+				}
+			}
+		} else {
+			dec, derr := decodeForm(form, term, out)
+			if derr != nil || !bytes.Equal(dec, want) {
+				ev.Violation(t, "C19/render-bytes-differ", "entry %s form %s terminal=%v payload %s field %s: output %q decodes to %x (err %v), field bytes are %x", entry, formNames[form], term, pkind, field, out, dec, derr, want)
+				return
+			}
 		}
 		lb := "0"
 		switch {
+		case len(want) > 512:
+			lb = ">512"
 		case len(want) > 64:
-			lb = ">64"
+			lb = "65-512"
+		case len(want) == 16:
+			lb = "16"
 		case len(want) > 0:
 			lb = "1-64"
 		}
@@ -1037,31 +1537,87 @@ func TestByteRenderings(t *testing.T) {
 		if i := strings.IndexByte(fclass, '['); i >= 0 {
 			fclass = fclass[:i]
 		}
-		ev.Case(name, len(want) > 0, entry+"/"+formNames[form]+"/"+fclass+"/"+lb+fmt.Sprint(term), entry+"/"+formNames[form], func() any {
-			return map[string]any{"entry": entry, "form": formNames[form], "terminal": term, "field": field, "len": len(want)}
+		ev.Class(name, "payload/"+pkind)
+		ev.Class(name, "len/"+lb)
+		if isMask {
+			ev.Class(name, "maskfield/"+fclass)
+		}
+		ev.Case(name, len(want) > 0, entry+"/"+formNames[form]+"/"+fclass+"/"+lb+fmt.Sprint(term)+pkind, entry+"/"+formNames[form], func() any {
+			return map[string]any{"entry": entry, "form": formNames[form], "terminal": term, "field": field, "len": len(want), "payload": pkind}
 		})
 	})
 }
 
-// Scanner progress: every scan either consumes input or reports eof; total work is linear.
+// indexReadyPrefixes lists the paths (depth <= 2) of md that end at a list or map field, followed
+// by "[": whatever comes next is scanned and parsed in index position.
+func indexReadyPrefixes(md protoreflect.MessageDescriptor) []string {
+	var out []string
+	for i := 0; i < md.Fields().Len(); i++ {
+		fd := md.Fields().Get(i)
+		switch {
+		case fd.IsList() || fd.IsMap():
+			out = append(out, fd.TextName()+"[")
+		case fd.Message() != nil:
+			for j := 0; j < fd.Message().Fields().Len(); j++ {
+				if g := fd.Message().Fields().Get(j); g.IsList() || g.IsMap() {
+					out = append(out, fd.TextName()+"."+g.TextName()+"[")
+				}
+			}
+		}
+	}
+	return out
+}
+
+// Scanner robustness on literal-shaped garbage. ParsePath stops at the first token it cannot use, so
+// the bytes are placed where the scanner really reaches them: at the start of the text or right
+// after "field[" of a list or map of the drawn root type.
 func TestScannerProgress(t *testing.T) {
 	const name = "scanner/progress"
-	ev.Rule(name, "arbitrary byte strings biased to quotes and backslashes fed to ParsePath for every root type; oracle: returns (no panic) and the error text, if any, is valid to format; non-trivial = contains a quote or backslash; distinct = the string")
-	md := (&epb.VMGoldenMeasurement{}).ProtoReflect().Descriptor()
+	ev.Rule(name, "root type drawn from the six root descriptors; text = {nothing | a valid 'field[' / 'msg.field[' prefix ending at a list or map} + byte string biased to quotes, backslashes, escape letters, digits and brackets (half of them forced to open with a quote, some closed with quote+']'); oracle: ParsePath returns (no panic, error text formats); if it accepts, the full accepted-path oracle of strings/arbitrary applies (evaluation == independent walk, and a string key equals the harness's own decoding of the literal); non-trivial = the scanner's string-literal code is actually reached (the byte string opens with a quote at a position the parser gets to); distinct = (root, text)")
+	roots := rootTypes()
+	prefixes := make([][]string, len(roots))
+	for i, md := range roots {
+		prefixes[i] = indexReadyPrefixes(md)
+	}
 	checks(ev.Scale(3000, 30000))
 	rapid.Check(t, func(t *rapid.T) {
-		b := rapid.SliceOfN(rapid.SampledFrom([]byte{'"', '\'', '\\', 'x', 'u', 'U', '0', '7', '8', 'f', 'g', '[', ']', '.', 'a', 0, '\n', 0xff, 0xc3, 0xa9, ' ', '-'}), 0, 24).Draw(t, "b")
-		s := string(b)
-		_, err, pan := safeParse(md, s)
+		ri := rapid.IntRange(0, len(roots)-1).Draw(t, "root")
+		md := roots[ri]
+		prefix := ""
+		if len(prefixes[ri]) > 0 && rapid.IntRange(0, 3).Draw(t, "withprefix") != 0 {
+			prefix = rapid.SampledFrom(prefixes[ri]).Draw(t, "prefix")
+		}
+		b := rapid.SliceOfN(rapid.SampledFrom([]byte{'"', '\'', '\\', 'x', 'X', 'u', 'U', '0', '1', '7', '8', 'f', 'g', 'a', 'b', 'n', 'r', 't', 'v', '?', '[', ']', '.', 'D', 0, '\n', 0xff, 0xc3, 0xa9, 0xef, 0xbf, 0xbd, ' ', '-'}), 0, 24).Draw(t, "b")
+		body := string(b)
+		if rapid.Bool().Draw(t, "openquote") {
+			q := rapid.SampledFrom([]string{"\"", "'"}).Draw(t, "q")
+			body = q + body
+			if rapid.Bool().Draw(t, "close") {
+				body += q + "]"
+			}
+		}
+		s := prefix + body
+		p, err, pan := safeParse(md, s)
 		if pan != nil {
-			ev.Violation(t, "C19/parse-panic", "ParsePath(%q) panicked: %v", s, pan)
+			ev.Violation(t, "C19/parse-panic", "ParsePath(%s, %q) panicked: %v", md.FullName(), s, pan)
 			return
 		}
 		if err != nil {
 			_ = err.Error()
+		} else if !judgeAccepted(t, name, md, genMessage(t, md, 0).Interface(), s, p) {
+			return
 		}
-		ev.Case(name, strings.ContainsAny(s, "\"'\\"), s, map[bool]string{true: "accept", false: "reject"}[err == nil], func() any {
-			return map[string]any{"string": strconv.QuoteToASCII(s), "valid_utf8": utf8.ValidString(s)}
+		reached := body != "" && (body[0] == '"' || body[0] == '\'')
+		class := "no-string-token"
+		if reached {
+			class = "string-token-scanned"
+			if strings.ContainsRune(body, '\\') {
+				class = "string-token-with-escape-scanned"
+			}
+		}
+		class += map[bool]string{true: "/accept", false: "/reject"}[err == nil]
+		ev.Case(name, reached, string(md.FullName())+"\x00"+s, class, func() any {
+			return map[string]any{"root": md.FullName(), "string": strconv.QuoteToASCII(s), "valid_utf8": utf8.ValidString(s)}
 		})
 	})
 }
@@ -1081,10 +1637,13 @@ func FuzzParseAndWalk(f *testing.F) {
 		}
 		msg := msgs[int(which)%len(msgs)]
 		want, present, wellTyped := refWalkPath(msg, p)
-		if !wellTyped {
-			t.Fatalf("VERIF-KEY=C19/parse-ill-typed-path :: %q -> %v", s, p)
+		vals, verr, pan := safeValues(p, msg)
+		if pan != nil || (!wellTyped && verr == nil) {
+			t.Fatalf("VERIF-KEY=C19/parse-ill-typed-path :: %q -> %v (well typed: %v, evaluation panic: %v)", s, p, wellTyped, pan)
 		}
-		vals, verr := parsepath.PathValues(p, msg)
+		if !wellTyped {
+			return
+		}
 		if present && verr != nil {
 			key := "C19/present-value-error"
 			if fieldAfterMap(p) {
@@ -1092,11 +1651,23 @@ func FuzzParseAndWalk(f *testing.F) {
 			}
 			t.Fatalf("VERIF-KEY=%s :: %q: reference %s, PathValues error %v", key, s, valueString(want), verr)
 		}
-		if present && !valuesEqual(vals.Index(-1).Value, want) {
-			t.Fatalf("VERIF-KEY=C19/wrong-value :: %q: got %s want %s", s, valueString(vals.Index(-1).Value), valueString(want))
+		if got, ok := lastValue(vals); present && (!ok || !valuesEqual(got, want)) {
+			t.Fatalf("VERIF-KEY=C19/wrong-value :: %q: got %s want %s", s, valueString(got), valueString(want))
 		}
 		if !present && verr == nil {
 			t.Fatalf("VERIF-KEY=C19/absent-element-no-error :: %q", s)
+		}
+		// what the text denotes, read independently
+		if rs, st := refParse(md, s); st == refOK {
+			if body := stripRoot(p); len(body) == len(rs) {
+				for i := range rs {
+					if !stepMatches(body[i], rs[i]) {
+						t.Fatalf("VERIF-KEY=C19/parse-wrong-step :: %q: step %d parsed as %v, the text denotes %s", s, i, body[i], refStepString(rs[i]))
+					}
+				}
+			}
+		} else if st == refNoMeaning && verr == nil {
+			t.Fatalf("VERIF-KEY=C19/wrong-kind-key-accepted :: %q: an index literal outside the domain of the indexed list/map evaluates to a value (%v)", s, p)
 		}
 	})
 }
@@ -1142,8 +1713,9 @@ func TestRegressionFieldAccessOnUnindexedList(t *testing.T) {
 		}
 		if err == nil {
 			_, _, wellTyped := refWalkPath(c.msg, p)
-			_, _, vpan := safeValues(p, c.msg)
-			if !wellTyped || vpan != nil {
+			_, verr, vpan := safeValues(p, c.msg)
+			// accepting is sound only if evaluation then reports an error instead of a value or a panic
+			if vpan != nil || (!wellTyped && verr == nil) {
 				ev.Violation(t, "C19/parse-ill-typed-path", "ParsePath(%q) produced a path that does not type-check against the root descriptor (evaluation panic: %v): %v", c.path, vpan, p)
 				continue
 			}
@@ -1181,5 +1753,35 @@ func TestRegressionFieldAfterMapIndex(t *testing.T) {
 		}
 		ev.Case("regression", true, c.path, "field-after-map", func() any { return c.path })
 	}
-	ev.Rule("regression", "hand-written replays of confirmed findings (field access after a map index); all non-trivial")
+	ev.Rule("regression", "hand-written replays of confirmed findings (field access after a map index; field access on an unindexed repeated field; string key escape that is not a Unicode scalar value); all non-trivial")
+}
+
+// Plain replay of the finding C19/invalid-codepoint-escape-aliases-key: a key literal with an escape
+// that is not a Unicode scalar value denotes no string; the scanner turns it into U+FFFD and the
+// path addresses the entry stored under "\uFFFD".
+func TestRegressionNonScalarEscape(t *testing.T) {
+	md := (&tmpb.Test{}).ProtoReflect().Descriptor()
+	msg := &tmpb.Test{Strkeymap: map[string]*tmpb.Test_Nested{"\uFFFD": {Intfield: 42}, "a\uFFFD": {Intfield: 43}}}
+	for _, path := range []string{`strkeymap["\U00110000"]`, `strkeymap['\uD800'].intfield`, `strkeymap["a\U7FFFFFFF"]`, `strkeymap["\udfff"]`} {
+		p, err, pan := safeParse(md, path)
+		if pan != nil {
+			ev.Violation(t, "C19/parse-panic", "ParsePath(%q) panicked: %v", path, pan)
+			continue
+		}
+		if err == nil {
+			vals, verr, pan := safeValues(p, msg)
+			if pan != nil {
+				ev.Violation(t, "C19/values-panic", "PathValues(%q) panicked: %v", path, pan)
+				continue
+			}
+			if verr == nil {
+				got, _ := lastValue(vals)
+				if ev.Violation(t, "C19/invalid-codepoint-escape-aliases-key", "path %q: the key literal denotes no string, yet ParsePath gave %v and PathValues returned %s", path, p, valueString(got)) {
+					ev.Case("regression", true, path, "non-scalar-escape/known-finding", func() any { return path })
+					continue
+				}
+			}
+		}
+		ev.Case("regression", true, path, "non-scalar-escape", func() any { return path })
+	}
 }
